@@ -99,6 +99,13 @@ type Replay struct {
 	Minimal  bool     `json:"minimised"`
 	OrigLen  int      `json:"original_tape_len"`
 	Witness  string   `json:"map_order_witness,omitempty"`
+	// Repeat > 1: the violation shows when the run is executed that many times in one process (what an earlier
+	// execution leaves in process-wide state of the code under test - a pool, a cache, a package variable - is part
+	// of the failing history); the log of such an execution is not compared.
+	Repeat int `json:"repeat,omitempty"`
+	// OrigTape: the unminimised tape (only when Tape is a minimised one); VERIF_REPLAY_ORIG=1 replays it instead.
+	OrigTape    []int  `json:"original_tape,omitempty"`
+	OrigLogHash string `json:"original_log_hash,omitempty"`
 }
 
 // WorkerResult is what a worker process writes for the driver.
@@ -468,6 +475,13 @@ func Worker(t *testing.T) {
 				min, mo = vals, o
 			}
 			rp := Replay{Property: prop, Seed: seed, Run: run, Tier: tier, Tape: min, Sig: v.Sig, Detail: detailOf(mo, v.Sig), LogHash: mo.LogHash, Log: mo.Log, Minimal: len(min) < len(vals), OrigLen: len(vals), Witness: mo.Witness}
+			if rp.Minimal {
+				// the tape as it was drawn, kept next to the minimised one: minimisation happens in the process that
+				// found the violation, and what earlier runs left in process-wide state of the code under test may
+				// have carried a candidate that is not failing on its own
+				rp.OrigTape = vals
+				rp.OrigLogHash = o.LogHash
+			}
 			if err := writeJSON(name, rp); err == nil {
 				fv.Replay = name
 			}
@@ -511,13 +525,20 @@ func replayFile(t *testing.T, c *Check, path string, outPath string) {
 	if tier == "" {
 		tier = "quick"
 	}
+	if os.Getenv("VERIF_REPLAY_ORIG") == "1" && len(rp.OrigTape) > 0 {
+		rp.Tape, rp.LogHash = rp.OrigTape, rp.OrigLogHash
+	}
 	tape := sim.NewReplayTape(rp.Tape)
 	o := runOnce(t, c, tape, tier)
 	for try := 0; try < 64 && o.Witness != rp.Witness; try++ {
 		// Go map iteration order is the one choice the tape cannot make: re-execute until it matches the recorded one
 		o = runOnce(t, c, sim.NewReplayTape(rp.Tape), tier)
 	}
-	ok := hasSig(o, rp.Sig) && (o.LogHash == rp.LogHash || rp.LogHash == "")
+	repeat := envInt("VERIF_REPLAY_REPEAT", rp.Repeat)
+	for k := 1; k < repeat && !hasSig(o, rp.Sig); k++ {
+		o = runOnce(t, c, sim.NewReplayTape(rp.Tape), tier)
+	}
+	ok := hasSig(o, rp.Sig) && (o.LogHash == rp.LogHash || rp.LogHash == "" || repeat > 1)
 	res := &WorkerResult{Property: rp.Property, Seed: rp.Seed, Tier: tier, Runs: 1, ReplayOK: &ok, Stats: map[string]int{}}
 	for _, v := range o.Viol {
 		res.Violations = append(res.Violations, FoundViolation{Sig: v.Sig, Detail: v.Detail, Run: rp.Run, Replay: path, Count: 1})
